@@ -328,7 +328,7 @@ def decorate(tp: Tape, m: Model, p_atom=150, p_bond=80, none_parity=0,
                 ch = {r: first for r in ch}
             if ch:
                 m.set_atom_change(**ch)
-            if not tp.chance(20):
+            if not tp.chance(50):
                 continue
             if ch and not changed and tp.chance(128):
                 # ... and as the static descriptor as well
@@ -405,7 +405,7 @@ def shuffled_recipe(tp: Tape, m: Model):
             b[0], b[1] = b[1], b[0]
     if tp.chance(70):
         r["alias"] = True       # equal descriptors are one shared object
-    if r["cls"] == "SCRG" and tp.chance(90):
+    if r["cls"] == "SCRG" and tp.chance(110):
         r["changes_first"] = True   # stereo changes set before static stereo
     return r
 
